@@ -725,6 +725,9 @@ impl<T: Entry + Clone> RowEchelonVecMatrix<T> {
         let mut cols = vec![m.nr_rows(); m.nr_rows()];
 
         for col in 0..m.nr_columns() {
+            if row >= m.nr_rows() {
+                break;
+            }
             if let Some(pr) = Entry::pivot_row(col, row, &u) {
                 if pr != row {
                     u.swap_rows(pr, row);
